@@ -24,6 +24,7 @@ import (
 	"github.com/robustirc/robustirc/internal/outputstream"
 	"github.com/robustirc/robustirc/internal/robust"
 	"github.com/robustirc/robustirc/internal/verifrep"
+	"gopkg.in/sorcix/irc.v2"
 )
 
 type nopFSM struct{}
@@ -91,6 +92,7 @@ type c04Add struct {
 }
 
 type c04Plan struct {
+	Real     bool
 	Seed     int64
 	Replicas int
 	Batches  []c04Batch
@@ -102,14 +104,21 @@ func c04MakePlan(seed int64) c04Plan {
 	p := c04Plan{Seed: seed, Replicas: rng.Intn(2) + 2}
 	nb := rng.Intn(10) + 4
 	id := uint64(10)
-	for i := 0; i < nb; i++ {
-		b := c04Batch{Id: id}
-		nr := rng.Intn(5) + 1
-		for r := 1; r <= nr; r++ {
-			b.Replies = append(b.Replies, c04Reply{Reply: uint64(r), Mine: rng.Intn(4) != 0, Data: fmt.Sprintf("m%d.%d", id, r)})
+	if rng.Intn(2) == 0 {
+		// batches produced by the real IRC state machine (nested send helpers, multi-channel commands)
+		p.Real = true
+		p.Batches, id = c04RealBatches(rng, nb)
+		nb = len(p.Batches)
+	} else {
+		for i := 0; i < nb; i++ {
+			b := c04Batch{Id: id}
+			nr := rng.Intn(5) + 1
+			for r := 1; r <= nr; r++ {
+				b.Replies = append(b.Replies, c04Reply{Reply: uint64(r), Mine: rng.Intn(4) != 0, Data: fmt.Sprintf("m%d.%d", id, r)})
+			}
+			p.Batches = append(p.Batches, b)
+			id += uint64(rng.Intn(3) + 1)
 		}
-		p.Batches = append(p.Batches, b)
-		id += uint64(rng.Intn(3) + 1)
 	}
 	// the last batch is a sentinel addressed to the session
 	p.Batches = append(p.Batches, c04Batch{Id: id + 5, Replies: []c04Reply{{Reply: 1, Mine: true, Data: "SENTINEL"}}})
@@ -149,6 +158,65 @@ func c04MakePlan(seed int64) c04Plan {
 		p.Segments = append(p.Segments, seg)
 	}
 	return p
+}
+
+// c04RealBatches runs a seeded script of IRC commands (three sessions, the
+// observed one is c04Session) through the real state machine and returns the
+// reply batches exactly as FSM.applyRobustMessage would hand them to the output stream.
+func c04RealBatches(rng *rand.Rand, n int) ([]c04Batch, uint64) {
+	i := ircserver.NewIRCServer("robustirc.net", time.Unix(0, 1481144012969203276))
+	now := time.Unix(1500000000, 0)
+	ids := []uint64{c04Session, 6, 7}
+	for _, s := range ids {
+		i.CreateSession(robust.Id{Id: s}, "auth", now)
+	}
+	next := uint64(10)
+	var out []c04Batch
+	run := func(sess uint64, line string) {
+		now = now.Add(time.Second)
+		msg := &robust.Message{Id: robust.Id{Id: next}, Session: robust.Id{Id: sess}, Type: robust.IRCFromClient, Data: line, UnixNano: now.UnixNano(), ClientMessageId: next}
+		i.UpdateLastClientMessageID(msg)
+		reply := i.ProcessMessage(msg, irc.ParseMessage(line))
+		i.SetLastProcessed(robust.Id{Id: sess})
+		if len(reply.Messages) > 0 {
+			b := c04Batch{Id: next}
+			for _, m := range reply.Messages {
+				b.Replies = append(b.Replies, c04Reply{Reply: m.Id.Reply, Mine: m.InterestingFor[c04Session], Data: m.Data})
+			}
+			out = append(out, b)
+		}
+		i.MaybeDeleteSession(robust.Id{Id: sess})
+		next += uint64(rng.Intn(2) + 1)
+	}
+	nicks := map[uint64]string{c04Session: "me", 6: "bee", 7: "cee"}
+	for _, s := range ids {
+		run(s, "NICK "+nicks[s])
+		run(s, "USER u 0 * :r")
+	}
+	run(c04Session, "JOIN #a,#b,#c")
+	run(6, "JOIN #a,#b,#c")
+	run(7, "JOIN #a,#b")
+	own := []string{"NAMES #a", "WHOIS bee", "MODE #a", "TOPIC #b :topic", "PART #b :back soon", "JOIN #b", "LIST", "WHO #a", "MODE #a +o bee", "PRIVMSG #a :hello", "INVITE cee #c", "MOTD"}
+	others := []string{"PART #a,#b,#c :bye", "JOIN #a,#b,#c", "PART #b,#a", "JOIN #b,#a", "PRIVMSG #a :hi", "PRIVMSG me :psst", "TOPIC #a :t", "MODE #a +i", "MODE #a -i", "KICK #a me :out", "NOTICE #b :n", "AWAY :gone", "INVITE me #zz"}
+	for k := 0; k < n*2 && len(out) < n+11; k++ {
+		switch rng.Intn(3) {
+		case 0:
+			run(c04Session, own[rng.Intn(len(own))])
+		case 1:
+			run(6, others[rng.Intn(len(others))])
+		default:
+			l := others[rng.Intn(len(others))]
+			if rng.Intn(6) == 0 {
+				nicks[7] = fmt.Sprintf("cee%d", k)
+				l = "NICK " + nicks[7]
+			}
+			run(7, l)
+		}
+		if rng.Intn(5) == 0 {
+			run(c04Session, "JOIN #a")
+		}
+	}
+	return out, next + 5
 }
 
 func (r *c04Replica) addUpTo(p *c04Plan, upTo int) {
@@ -405,7 +473,33 @@ func c04Run(rep *verifrep.R, rn *raft.Raft, dir string, p c04Plan, sample bool) 
 			viol("never-delivered", fmt.Sprintf("the node holds every batch, the client resumed three times with lastseen=%s and waited 15s in total, but %d.%d was not delivered", lastseen, expected[pos].Id, expected[pos].Reply))
 		}
 	}
-	rep.Case(fmt.Sprintf("plan|%d|%s", p.Replicas, strings.Join(kinds, ",")))
+	if !bad && p.Real {
+		// every cut position once, on a caught-up replica: read c messages, resume, read the rest
+		final := reps[0]
+		final.addUpTo(&p, len(p.Batches))
+		for c := 1; c < len(expected) && !bad; c++ {
+			pos, lastseen = 0, "0.0"
+			got, _ := c04Read(final.srv.URL, "0.0", c, 3*time.Second, nil)
+			consume(got, fmt.Sprintf("cut sweep: first %d messages", c))
+			if bad || pos != c {
+				if !bad {
+					viol("never-delivered", fmt.Sprintf("cut sweep: asked for %d messages from a caught-up replica, got %d within 3s", c, pos))
+					bad = true
+				}
+				break
+			}
+			got, _ = c04Read(final.srv.URL, lastseen, 0, 3*time.Second, nil)
+			consume(got, fmt.Sprintf("cut sweep: resume after %s (cut %d of %d)", lastseen, c, len(expected)))
+			if !bad && pos != len(expected) {
+				viol("never-delivered", fmt.Sprintf("cut sweep: resumed after %s on a caught-up replica; %d.%d was not delivered within 3s", lastseen, expected[pos].Id, expected[pos].Reply))
+				bad = true
+			}
+			rep.Case("")
+			rep.Obs("cut-sweep.positions", 1)
+		}
+	}
+	rep.Case(fmt.Sprintf("plan|real=%v|%d|%s", p.Real, p.Replicas, strings.Join(kinds, ",")))
+	rep.Obs(fmt.Sprintf("plans.real-irc-batches=%v", p.Real), 1)
 	if sample {
 		rep.Sample(map[string]interface{}{"seed": p.Seed, "replicas": p.Replicas, "batches": len(p.Batches), "segments": p.Segments, "situations": kinds})
 	}
